@@ -66,6 +66,9 @@ type Harness struct {
 	Subs    []Submission
 	seq     map[util.Uint256]int // submission sequence of a transaction hash (mempool ordering)
 	paused  map[int]chan struct{}
+	// hold deviation: the transaction at position holdNext of the next block is withheld for holdLen blocks
+	holdNext, holdLen int
+	held              map[util.Uint256]int
 }
 
 // Submission is one transaction or notary request a member handed to the chain.
@@ -93,7 +96,7 @@ type memberChain struct {
 }
 
 func NewHarness(n int, dir string, log *zap.Logger) (*Harness, error) {
-	h := &Harness{log: log, calls: map[string]int{}, seq: map[util.Uint256]int{}, paused: map[int]chan struct{}{}, Phase: "deploy"}
+	h := &Harness{log: log, calls: map[string]int{}, seq: map[util.Uint256]int{}, paused: map[int]chan struct{}{}, Phase: "deploy", holdNext: -1}
 	for i := 0; i < n; i++ {
 		// deterministic keys
 		b := make([]byte, 32)
@@ -303,6 +306,25 @@ func (h *Harness) MineBlock(swap int) (*block.Block, error) {
 	if swap >= 0 && swap+1 < len(txs) {
 		txs[swap], txs[swap+1] = txs[swap+1], txs[swap]
 	}
+	// withheld transactions stay in the pool (where they may expire) and out of blocks until their release
+	h.mu.Lock()
+	if h.holdNext >= 0 && h.holdNext < len(txs) {
+		if h.held == nil {
+			h.held = map[util.Uint256]int{}
+		}
+		h.held[txs[h.holdNext].Hash()] = h.holdLen
+	}
+	h.holdNext = -1
+	kept := txs[:0]
+	for _, t := range txs {
+		if left, ok := h.held[t.Hash()]; ok && left > 0 {
+			h.held[t.Hash()] = left - 1
+			continue
+		}
+		kept = append(kept, t)
+	}
+	txs = kept
+	h.mu.Unlock()
 	last, err := bc.GetBlock(bc.GetHeaderHash(bc.BlockHeight()))
 	if err != nil {
 		return nil, err
